@@ -138,7 +138,7 @@ def main(tier, replay=None):
     fails = []
     try:
         rnd = random.Random(chk.seed * 3 + 1)
-        seeds = ["o9WDTZ4CN4w"] if tier == "quick" else ["o9WDTZ4CN4w", "AAECAwQFBgcICQ", "3q2+78r+ur4", None, None]
+        seeds = ["o9WDTZ4CN4w"] if tier == "quick" else ["o9WDTZ4CN4w", "k3mTq0Zf9vJxW2hL7dRpYw", "Vd8nqLr0c2M5xw", None, None]
         for i, seed in enumerate(seeds):
             mp = MarkerProgram(rnd)
             src = mp.source()
